@@ -125,8 +125,22 @@ func TestC16Wal(t *testing.T) {
 					}
 				}
 			}
-			// (lookups by the hash of a block whose entry was truncated are not constrained by the property:
-			// the inverse block->index map keeps the old index, see DESIGN.md notes on C16)
+			// an entry removed by a conflicting overwrite / clear / reset is absent under every name: a lookup by the
+			// hash of the block it carried must not hand out whatever entry sits at its old index now
+			for h := range m.gone {
+				live := false
+				for _, e := range m.log {
+					if e != nil && e.typ == "block" && string(e.block.BlockHash()) == h {
+						live = true
+					}
+				}
+				if live {
+					continue
+				}
+				if be, err := w.GetRaftEntryOfBlock([]byte(h)); err == nil && be != nil && (be.Type != consensus.EntryBlock || !bytes.Equal(be.Data, []byte(h))) {
+					fail("the entry that carried block %x was removed; a lookup by that block's hash returns entry %d (type %v) carrying %x", []byte(h)[:6], be.Index, be.Type, be.Data[:min(6, len(be.Data))])
+				}
+			}
 			hs, err := w.GetHardState()
 			if m.hs == nil {
 				if err == nil {
